@@ -323,7 +323,7 @@ func runC14(e0 *env, w *bufio.Writer, n int, corpus string) {
 // ---------------------------------------------------------------------------------------------------------------
 
 var setterValues = map[string][]string{
-	"protocol": {"https", "http:", "ws", "wss:", "ftp", "file", "foo", "FOO:", "", ":", "h ttp", "1a", "a+b", "javascript:alert(1)", "é", "HTTPS", "http", "ftp:", "wss", "bar:baz"},
+	"protocol": {"https", "http:", "ws", "wss:", "ftp", "file", "foo", "FOO:", "", ":", "h ttp", "1a", "a+b", "javascript:alert(1)", "é", "HTTPS", "http", "ftp:", "wss", "bar:baz", "/x", "/", "/a?b", "a/b", "x y", "é:", "ws:/"},
 	"username": {"", "u", "a b", "a:b", "a@b", "é", "%41", "/", "?#", "user", "U", "a%zz"},
 	"password": {"", "p", "a b", "a:b", "a@b", "é", "%41", "/", "?#", "pw"},
 	"host": {"h.com", "H.COM:8080", "h.com:80", "h.com:443", "h.com:21", "h.com:", "x/y", "a@b", "", ":81", "h:99999", "h:0", "h:00080", "é.com", "[::1]", "[::1]:81", "[::1",
